@@ -320,6 +320,9 @@ func (s *SencBox) Size() uint64 {
 func (s *SencBox) calcSize() uint64 {
 	totalSize := uint64(boxHeaderSize + 8)
 	perSampleIVSize := uint64(s.GetPerSampleIVSize())
+	if perSampleIVSize == 0 && s.Flags&UseSubSampleEncryption == 0 {
+		return totalSize // No per-sample data, so no need to loop over a possibly huge sample count
+	}
 	for i := uint32(0); i < s.SampleCount; i++ {
 		totalSize += perSampleIVSize
 		if s.Flags&UseSubSampleEncryption != 0 {
